@@ -281,12 +281,17 @@ impl DebuggerContext {
                 }),
             );
 
-            match vm.parse(&rule, &input) {
-                Ok(_) => sender.send(DebuggerEvent::Eof).expect(CHANNEL_CLOSED_PANIC),
-                Err(error) => sender
-                    .send(DebuggerEvent::Error(error.to_string()))
-                    .expect(CHANNEL_CLOSED_PANIC),
+            let event = match vm.parse(&rule, &input) {
+                Ok(_) => DebuggerEvent::Eof,
+                Err(error) => DebuggerEvent::Error(error.to_string()),
             };
+
+            // `run` sets `is_done` and then joins this thread in order to terminate the
+            // session. Nobody is going to read the outcome of an abandoned session, and a
+            // blocking `send` into a full channel would make that `join` (and `run`) hang.
+            if !is_done.load(Ordering::SeqCst) {
+                sender.send(event).expect(CHANNEL_CLOSED_PANIC);
+            }
 
             #[cfg(pest_parser_pest_verif)]
             verif_hooks::at("t_store");
